@@ -21,7 +21,7 @@ Local Open Scope string_scope.
     permutation); it disappears with an empty tape, see part 2. *)
 Theorem C09c_decorator_correct {A} (func : MS A) Pre Post s L r s' :
   op_spec func (heldn L) Pre Post →
-  Inv s → Counts s L → Pre s → rctx s = false →
+  Inv s → Counts s L → Pre s → rctx s = false → max_nodes s = None →
   try_to_reorder func s = (r, s') →
   r = Err EOracle ∨
   ∃ a, r = Ok a ∧ Inv s' ∧ Counts s' L ∧ rctx s' = false ∧
@@ -33,14 +33,14 @@ Print Assumptions C09c_decorator_correct.
 
 Theorem C09c_decorator_no_signal {A} (func : MS A) Pre Post s L r s' :
   op_spec func (heldn L) Pre Post →
-  Inv s → Counts s L → Pre s → rctx s = false →
+  Inv s → Counts s L → Pre s → rctx s = false → max_nodes s = None →
   try_to_reorder func s = (r, s') →
   r ≠ Err ENeedsReordering.
 Proof. exact (try_to_reorder_no_signal func Pre Post s L r s' sifting_ok'_holds). Qed.
 Print Assumptions C09c_decorator_no_signal.
 
 Theorem C09c_ite_dynamic s L g u v r s' :
-  Inv s → Counts s L → rctx s = false →
+  Inv s → Counts s L → rctx s = false → max_nodes s = None →
   valid s g → valid s u → valid s v →
   heldn L (absn g) → heldn L (absn u) → heldn L (absn v) →
   ite g u v s = (r, s') →
@@ -55,7 +55,7 @@ Proof. exact (ite_dynamic s L g u v r s' sifting_ok'_holds). Qed.
 Print Assumptions C09c_ite_dynamic.
 
 Theorem C09c_var_dynamic s L name r s' :
-  Inv s → Counts s L → rctx s = false →
+  Inv s → Counts s L → rctx s = false → max_nodes s = None →
   is_Some (vars s !! name) →
   var name s = (r, s') →
   r = Err EOracle ∨
@@ -68,7 +68,7 @@ Proof. exact (var_dynamic s L name r s' sifting_ok'_holds). Qed.
 Print Assumptions C09c_var_dynamic.
 
 Theorem C09c_apply_dynamic s L op u v w r s' f :
-  Inv s → Counts s L → rctx s = false →
+  Inv s → Counts s L → rctx s = false → max_nodes s = None →
   op ∈ py_vocab → conn_sem op = Some f →
   valid s u → ovalid s v → ovalid s w → arity_ok op v w = true →
   heldn L (absn u) → oref L v → oref L w →
@@ -84,7 +84,7 @@ Proof. exact (apply_dynamic s L op u v w r s' f sifting_ok'_holds). Qed.
 Print Assumptions C09c_apply_dynamic.
 
 Theorem C09c_quantify_dynamic s L u qvars fa r s' :
-  Inv s → Counts s L → rctx s = false →
+  Inv s → Counts s L → rctx s = false → max_nodes s = None →
   valid s u → heldn L (absn u) →
   Forall (fun k => is_Some (vars s !! k)) qvars →
   quantify u true qvars fa s = (r, s') →
@@ -99,7 +99,7 @@ Proof. exact (quantify_dynamic s L u qvars fa r s' sifting_ok'_holds). Qed.
 Print Assumptions C09c_quantify_dynamic.
 
 Theorem C09c_cofactor_dynamic s L u values r s' :
-  Inv s → Counts s L → rctx s = false →
+  Inv s → Counts s L → rctx s = false → max_nodes s = None →
   valid s u → heldn L (absn u) →
   Forall (fun p => is_Some (vars s !! p.1)) values →
   cofactor u true values s = (r, s') →
@@ -114,7 +114,7 @@ Proof. exact (cofactor_dynamic s L u values r s' sifting_ok'_holds). Qed.
 Print Assumptions C09c_cofactor_dynamic.
 
 Theorem C09c_compose_dynamic s L f var_sub r s' :
-  Inv s → Counts s L → rctx s = false →
+  Inv s → Counts s L → rctx s = false → max_nodes s = None →
   valid s f → heldn L (absn f) →
   Forall (fun p => is_Some (vars s !! p.1) ∧ valid s p.2 ∧ heldn L (absn p.2)) var_sub →
   compose f var_sub s = (r, s') →
@@ -129,7 +129,7 @@ Proof. exact (compose_dynamic s L f var_sub r s' sifting_ok'_holds). Qed.
 Print Assumptions C09c_compose_dynamic.
 
 Theorem C09c_compose1_dynamic s L f v g r s' :
-  Inv s → Counts s L → rctx s = false →
+  Inv s → Counts s L → rctx s = false → max_nodes s = None →
   valid s f → heldn L (absn f) →
   is_Some (vars s !! v) → valid s g → heldn L (absn g) →
   compose f [(v, g)] s = (r, s') →
@@ -145,7 +145,7 @@ Proof. exact (compose1_dynamic s L f v g r s' sifting_ok'_holds). Qed.
 Print Assumptions C09c_compose1_dynamic.
 
 Theorem C09c_rename_dynamic s L u dvars r s' :
-  Inv s → Counts s L → rctx s = false →
+  Inv s → Counts s L → rctx s = false → max_nodes s = None →
   valid s u → heldn L (absn u) →
   (∀ x y, (x, y) ∈ dvars → is_Some (vars s !! y)) →
   rename u dvars s = (r, s') →
@@ -160,7 +160,7 @@ Proof. exact (rename_dynamic s L u dvars r s' sifting_ok'_holds). Qed.
 Print Assumptions C09c_rename_dynamic.
 
 Theorem C09c_cube_dynamic s L dvars r s' :
-  Inv s → Counts s L → rctx s = false →
+  Inv s → Counts s L → rctx s = false → max_nodes s = None →
   Forall (fun p => is_Some (vars s !! p.1)) dvars →
   cube dvars s = (r, s') →
   r = Err EOracle ∨
@@ -174,7 +174,7 @@ Proof. exact (cube_dynamic s L dvars r s' sifting_ok'_holds). Qed.
 Print Assumptions C09c_cube_dynamic.
 
 Theorem C09c_apply_quant_dynamic s L op fa u v r s' :
-  Inv s → Counts s L → rctx s = false →
+  Inv s → Counts s L → rctx s = false → max_nodes s = None →
   (fa = true ∧ op ∈ ["\A"; "forall"]) ∨ (fa = false ∧ op ∈ ["\E"; "exists"]) →
   valid s u → valid s v → heldn L (absn v) →
   apply op u (Some v) None s = (r, s') →
@@ -190,7 +190,7 @@ Proof. exact (apply_quant_dynamic s L op fa u v r s' sifting_ok'_holds). Qed.
 Print Assumptions C09c_apply_quant_dynamic.
 
 Theorem C09c_let_dynamic s L d u r s' :
-  Inv s → Counts s L → rctx s = false →
+  Inv s → Counts s L → rctx s = false → max_nodes s = None →
   valid s u → heldn L (absn u) → let_ok L s d →
   let_ d u s = (r, s') →
   r = Err EOracle ∨
@@ -214,7 +214,7 @@ Proof. exact (conj (fun H => H) (fun H => H)). Qed.
 
 Theorem C09c_decorator_correct_notape {A} (func : MS A) Pre Post s L r s' :
   op_spec func (heldn L) Pre Post → nt func →
-  Inv s → Counts s L → Pre s → rctx s = false → tape s = [] →
+  Inv s → Counts s L → Pre s → rctx s = false → tape s = [] → max_nodes s = None →
   try_to_reorder func s = (r, s') →
   ∃ a, r = Ok a ∧ Inv s' ∧ Counts s' L ∧ rctx s' = false ∧ tape s' = [] ∧
        (last_len s = None → last_len s' = None) ∧
@@ -224,7 +224,7 @@ Proof. exact (try_to_reorder_correct_notape func Pre Post s L r s'). Qed.
 Print Assumptions C09c_decorator_correct_notape.
 
 Theorem C09c_ite_notape s L g u v r s' :
-  Inv s → Counts s L → rctx s = false → tape s = [] →
+  Inv s → Counts s L → rctx s = false → tape s = [] → max_nodes s = None →
   valid s g → valid s u → valid s v →
   heldn L (absn g) → heldn L (absn u) → heldn L (absn v) →
   ite g u v s = (r, s') →
@@ -234,11 +234,11 @@ Theorem C09c_ite_notape s L g u v r s' :
         keeps (heldn L) s s' ∧ valid s' w ∧
         ∀ ρ, denv s' w ρ = if denv s g ρ then denv s u ρ else denv s v ρ) ∧
   tape s' = [].
-Proof. exact (fun HI HC Hc Ht => ite_notape s L HI HC Hc Ht g u v r s'). Qed.
+Proof. exact (fun HI HC Hc Ht Hmx => ite_notape s L HI HC Hc Ht Hmx g u v r s'). Qed.
 Print Assumptions C09c_ite_notape.
 
 Theorem C09c_var_notape s L name r s' :
-  Inv s → Counts s L → rctx s = false → tape s = [] →
+  Inv s → Counts s L → rctx s = false → tape s = [] → max_nodes s = None →
   is_Some (vars s !! name) →
   var name s = (r, s') →
   (∃ w, r = Ok w ∧ Inv s' ∧ Counts s' L ∧ rctx s' = false ∧
@@ -246,11 +246,11 @@ Theorem C09c_var_notape s L name r s' :
         (is_Some (last_len s) → is_Some (last_len s')) ∧
         keeps (heldn L) s s' ∧ valid s' w ∧ ∀ ρ, denv s' w ρ = ρ name) ∧
   tape s' = [].
-Proof. exact (fun HI HC Hc Ht => var_notape s L HI HC Hc Ht name r s'). Qed.
+Proof. exact (fun HI HC Hc Ht Hmx => var_notape s L HI HC Hc Ht Hmx name r s'). Qed.
 Print Assumptions C09c_var_notape.
 
 Theorem C09c_apply_notape s L op u v w r s' f :
-  Inv s → Counts s L → rctx s = false → tape s = [] →
+  Inv s → Counts s L → rctx s = false → tape s = [] → max_nodes s = None →
   op ∈ py_vocab → conn_sem op = Some f →
   valid s u → ovalid s v → ovalid s w → arity_ok op v w = true →
   heldn L (absn u) → oref L v → oref L w →
@@ -261,11 +261,11 @@ Theorem C09c_apply_notape s L op u v w r s' f :
         keeps (heldn L) s s' ∧ valid s' x ∧
         ∀ ρ, denv s' x ρ = f (denv s u ρ) (odenv s v ρ) (odenv s w ρ)) ∧
   tape s' = [].
-Proof. exact (fun HI HC Hc Ht => apply_notape s L HI HC Hc Ht op u v w r s' f). Qed.
+Proof. exact (fun HI HC Hc Ht Hmx => apply_notape s L HI HC Hc Ht Hmx op u v w r s' f). Qed.
 Print Assumptions C09c_apply_notape.
 
 Theorem C09c_apply_quant_notape s L op fa u v r s' :
-  Inv s → Counts s L → rctx s = false → tape s = [] →
+  Inv s → Counts s L → rctx s = false → tape s = [] → max_nodes s = None →
   (fa = true ∧ op ∈ ["\A"; "forall"]) ∨ (fa = false ∧ op ∈ ["\E"; "exists"]) →
   valid s u → valid s v → heldn L (absn v) →
   apply op u (Some v) None s = (r, s') →
@@ -276,11 +276,11 @@ Theorem C09c_apply_quant_notape s L op fa u v r s' :
         (∀ y, y ∈ Q ↔ ∃ l, vars s !! y = Some l ∧ depends s u l) ∧
         ∀ ρ, denv s' x ρ = true ↔ qsemv s fa Q v ρ) ∧
   tape s' = [].
-Proof. exact (fun HI HC Hc Ht => apply_quant_notape s L HI HC Hc Ht op fa u v r s'). Qed.
+Proof. exact (fun HI HC Hc Ht Hmx => apply_quant_notape s L HI HC Hc Ht Hmx op fa u v r s'). Qed.
 Print Assumptions C09c_apply_quant_notape.
 
 Theorem C09c_quantify_notape s L u qvars fa r s' :
-  Inv s → Counts s L → rctx s = false → tape s = [] →
+  Inv s → Counts s L → rctx s = false → tape s = [] → max_nodes s = None →
   valid s u → heldn L (absn u) →
   Forall (fun k => is_Some (vars s !! k)) qvars →
   quantify u true qvars fa s = (r, s') →
@@ -290,11 +290,11 @@ Theorem C09c_quantify_notape s L u qvars fa r s' :
         keeps (heldn L) s s' ∧ valid s' x ∧
         ∀ ρ, denv s' x ρ = true ↔ qsemv s fa (list_to_set qvars) u ρ) ∧
   tape s' = [].
-Proof. exact (fun HI HC Hc Ht => quantify_notape s L HI HC Hc Ht u qvars fa r s'). Qed.
+Proof. exact (fun HI HC Hc Ht Hmx => quantify_notape s L HI HC Hc Ht Hmx u qvars fa r s'). Qed.
 Print Assumptions C09c_quantify_notape.
 
 Theorem C09c_cofactor_notape s L u values r s' :
-  Inv s → Counts s L → rctx s = false → tape s = [] →
+  Inv s → Counts s L → rctx s = false → tape s = [] → max_nodes s = None →
   valid s u → heldn L (absn u) →
   Forall (fun p => is_Some (vars s !! p.1)) values →
   cofactor u true values s = (r, s') →
@@ -304,11 +304,11 @@ Theorem C09c_cofactor_notape s L u values r s' :
         keeps (heldn L) s s' ∧ valid s' x ∧
         ∀ ρ, denv s' x ρ = denv s u (overridev (list_to_map (reverse values)) ρ)) ∧
   tape s' = [].
-Proof. exact (fun HI HC Hc Ht => cofactor_notape s L HI HC Hc Ht u values r s'). Qed.
+Proof. exact (fun HI HC Hc Ht Hmx => cofactor_notape s L HI HC Hc Ht Hmx u values r s'). Qed.
 Print Assumptions C09c_cofactor_notape.
 
 Theorem C09c_compose_notape s L f var_sub r s' :
-  Inv s → Counts s L → rctx s = false → tape s = [] →
+  Inv s → Counts s L → rctx s = false → tape s = [] → max_nodes s = None →
   valid s f → heldn L (absn f) →
   Forall (fun p => is_Some (vars s !! p.1) ∧ valid s p.2 ∧ heldn L (absn p.2)) var_sub →
   compose f var_sub s = (r, s') →
@@ -318,11 +318,11 @@ Theorem C09c_compose_notape s L f var_sub r s' :
         keeps (heldn L) s s' ∧ valid s' x ∧
         ∀ ρ, denv s' x ρ = denv s f (vsubstv s (list_to_map (reverse var_sub)) ρ)) ∧
   tape s' = [].
-Proof. exact (fun HI HC Hc Ht => compose_notape s L HI HC Hc Ht f var_sub r s'). Qed.
+Proof. exact (fun HI HC Hc Ht Hmx => compose_notape s L HI HC Hc Ht Hmx f var_sub r s'). Qed.
 Print Assumptions C09c_compose_notape.
 
 Theorem C09c_rename_notape s L u dvars r s' :
-  Inv s → Counts s L → rctx s = false → tape s = [] →
+  Inv s → Counts s L → rctx s = false → tape s = [] → max_nodes s = None →
   valid s u → heldn L (absn u) →
   (∀ x y, (x, y) ∈ dvars → is_Some (vars s !! y)) →
   rename u dvars s = (r, s') →
@@ -332,11 +332,11 @@ Theorem C09c_rename_notape s L u dvars r s' :
         keeps (heldn L) s s' ∧ valid s' x ∧
         ∀ ρ, denv s' x ρ = denv s u (renv (list_to_map (reverse dvars)) ρ)) ∧
   tape s' = [].
-Proof. exact (fun HI HC Hc Ht => rename_notape s L HI HC Hc Ht u dvars r s'). Qed.
+Proof. exact (fun HI HC Hc Ht Hmx => rename_notape s L HI HC Hc Ht Hmx u dvars r s'). Qed.
 Print Assumptions C09c_rename_notape.
 
 Theorem C09c_cube_notape s L dvars r s' :
-  Inv s → Counts s L → rctx s = false → tape s = [] →
+  Inv s → Counts s L → rctx s = false → tape s = [] → max_nodes s = None →
   Forall (fun p => is_Some (vars s !! p.1)) dvars →
   cube dvars s = (r, s') →
   (∃ x, r = Ok x ∧ Inv s' ∧ Counts s' L ∧ rctx s' = false ∧
@@ -345,11 +345,11 @@ Theorem C09c_cube_notape s L dvars r s' :
         keeps (heldn L) s s' ∧ valid s' x ∧
         ∀ ρ, denv s' x ρ = true ↔ ∀ v b, (v, b) ∈ dvars → ρ v = b) ∧
   tape s' = [].
-Proof. exact (fun HI HC Hc Ht => cube_notape s L HI HC Hc Ht dvars r s'). Qed.
+Proof. exact (fun HI HC Hc Ht Hmx => cube_notape s L HI HC Hc Ht Hmx dvars r s'). Qed.
 Print Assumptions C09c_cube_notape.
 
 Theorem C09c_let_notape s L d u r s' :
-  Inv s → Counts s L → rctx s = false → tape s = [] →
+  Inv s → Counts s L → rctx s = false → tape s = [] → max_nodes s = None →
   valid s u → heldn L (absn u) → let_ok L s d →
   let_ d u s = (r, s') →
   (∃ x, r = Ok x ∧ Inv s' ∧ Counts s' L ∧ rctx s' = false ∧
@@ -358,7 +358,7 @@ Theorem C09c_let_notape s L d u r s' :
         keeps (heldn L) s s' ∧ valid s' x ∧
         ∀ ρ, denv s' x ρ = denv s u (let_sem s d ρ)) ∧
   tape s' = [].
-Proof. exact (fun HI HC Hc Ht => let_notape s L HI HC Hc Ht d u r s'). Qed.
+Proof. exact (fun HI HC Hc Ht Hmx => let_notape s L HI HC Hc Ht Hmx d u r s'). Qed.
 Print Assumptions C09c_let_notape.
 
 (** ** 3. Histories of dd.bdd with dynamic reordering ENABLED.
@@ -394,7 +394,7 @@ Theorem C09c_allowedD_def o :
   | OIncref _ | ODecref _ | ORef _ | OGc _
   | OCofactor _ _ _ | OQuantify _ _ _ _ | OCompose _ _ | ORename _ _
   | OLet _ _ | OCube _ | OSupport _ | OIsEssential _ _
-  | OConfigure _ | OSetLastLen _ | OSetTrig _ => true
+  | OConfigure _ | OSetLastLen _ | OSetTrig _ | OSetMaxNodes _ => true
   | _ => false
   end.
 Proof. exact eq_refl. Qed.
@@ -410,7 +410,11 @@ Proof. exact (conj (fun H => H) (fun H => H)). Qed.
 
 (** the decorator for ARBITRARY arguments and any outcome, for a wrapped
     operation that never raises the signal with requests off ([nrf]), never
-    reads the tape ([nt]) and is safe inside a context ([csafe]) *)
+    reads the tape ([nt]) and is safe inside a context ([csafe]).
+    Also when the sifting pass started by the decorator is stopped by a full
+    table the mode is kept: [_try_to_reorder] puts the threshold back when
+    [reorder(bdd)] raises (dd 854af5f), the manager is well formed, counts
+    exact, held references intact. *)
 Theorem C09c_csafe_def {A} (m : MS A) :
   csafe m ↔ ∀ s r s', Inv s → no_reorder s → m s = (r, s') →
     Inv s' ∧ extends s s' ∧ frame s s' ∧ ∀ L, Counts s L → Counts s' L.
